@@ -43,6 +43,10 @@ RULE = ('cases (max_retries, executor, job sequence on one context); every job h
         'cache mapValues sample); 50 job-triggering public methods (every caller of runJob/collect/toLocalIterator in '
         'rdd.py that fits integer data) classified as whole-partition / whole-partition through toLocalIterator '
         '(evaluated inside runJob since e07529e) / lazy (take first isEmpty); follow-up jobs fresh or on the same dataset object; '
+        '21 exception classes (an application class, the classes an action\'s own per-partition code might catch -- '
+        'TypeError StopIteration RuntimeError ValueError KeyError IndexError ZeroDivisionError AttributeError -- a subclass '
+        'and a base class of each) x every method x position, transient and permanent; the same classes raised by the '
+        'user\'s own reduce/fold/seqOp/foreach/map/filter function under 34 methods (oracle only); '
         'exhaustive over the number of failing attempts per partition for <=3 partitions and max_retries 1..4 on three '
         'executors; non-trivial = some attempt fails or some nested operation is attempted; distinct by canonical JSON')
 ASSUMPTIONS = [
@@ -58,6 +62,9 @@ ASSUMPTIONS = [
     'after jobs without an exhausting partition, never on the barrier pool (cached partitions do not reach the barrier)',
     'free-running thread pool: attempt logs of partitions after the first exhausted one are only checked to be '
     'empty (cancelled) or complete',
+    'a StopIteration that leaves a generator frame is turned into RuntimeError("generator raised StopIteration") with the '
+    'original as __cause__ by the interpreter (PEP 479) before pysparkling sees it; the harness reports that pair as the '
+    'original StopIteration (not on worker processes, where pickling drops __cause__: no StopIteration faults there)',
     'file-, process- and text-based dataset constructors (textFile, pipe, ...) are not among the nested operations',
 ]
 TRUSTED = ['translator/kernels/c04.py (run_task_kernel, runjob_lock_kernel, rdd_init_kernel, tolocaliterator_kernel)',
@@ -68,7 +75,50 @@ class TaskFault(Exception):
     pass
 
 
-EXC = [ValueError, KeyError, TaskFault]
+class SubValueError(ValueError):
+    pass
+
+
+class SubKeyError(KeyError):
+    pass
+
+
+class SubTypeError(TypeError):
+    pass
+
+
+class SubStopIteration(StopIteration):
+    pass
+
+
+class SubRuntimeError(RuntimeError):
+    pass
+
+
+class SubIndexError(IndexError):
+    pass
+
+
+class SubZeroDivisionError(ZeroDivisionError):
+    pass
+
+
+class SubAttributeError(AttributeError):
+    pass
+
+
+# exception classes a task may raise (code -> class).  Besides an application class: the classes that the
+# per-partition code of some action might catch for its own purposes (empty-iterable TypeError of
+# functools.reduce, StopIteration/RuntimeError of generators, ValueError of min/max, KeyError/IndexError of
+# lookups, ZeroDivisionError of means, AttributeError), a subclass and a base class of each.
+# Codes 3 (ContextIsLockedException) and 5 (StopIteration of first() on an empty dataset) are not injected.
+EXC = {0: ValueError, 1: KeyError, 2: TaskFault, 6: TypeError, 7: StopIteration, 8: RuntimeError, 9: IndexError,
+       10: ZeroDivisionError, 11: AttributeError, 12: SubValueError, 13: SubKeyError, 14: SubTypeError,
+       15: SubStopIteration, 16: SubRuntimeError, 17: SubIndexError, 18: SubZeroDivisionError, 19: SubAttributeError,
+       20: LookupError, 21: ArithmeticError, 22: NotImplementedError, 23: AssertionError}
+EXC_CODES = sorted(EXC)
+EXC_OF = {c: k for k, c in EXC.items()}
+STOPITER_CODES = (7, 15)
 LOCKED = 3
 STOP = 5
 SUSPENDED = -2
@@ -273,14 +323,25 @@ NEST_OPS = {
 NEST_CODES = sorted(NEST_OPS)
 
 
-def exc_code(e):
-    if type(e) in EXC:
-        return EXC.index(type(e))
+def describe_exc(e):
+    """(class code or class name, args) of the exception the caller received.  A StopIteration that leaves a
+    generator frame reaches everybody -- pysparkling included -- as RuntimeError('generator raised StopIteration')
+    with the original as __cause__ (PEP 479, the interpreter's doing): that pair is reported as the original."""
+    if type(e) is RuntimeError and type(e.__cause__) in (StopIteration, SubStopIteration) and e.__cause__.args \
+            and e.args == ('generator raised StopIteration',):
+        e = e.__cause__
     if type(e) is ContextIsLockedException:
-        return LOCKED
-    if type(e) is StopIteration:
-        return STOP
-    return type(e).__name__
+        code = LOCKED
+    elif type(e) is StopIteration and not e.args:
+        code = STOP
+    else:
+        code = EXC_OF.get(type(e), type(e).__name__)
+    args = e.args if all(isinstance(x, int) and not isinstance(x, bool) for x in e.args) else (repr(e.args),)
+    return code, tuple(args)
+
+
+def exc_code(e):
+    return describe_exc(e)[0]
 
 
 # ------------------------------------------------------------------ plain-list reference (for the oracle)
@@ -391,8 +452,7 @@ def run_job(sc, maxr, mode, jidx, job, prev):
             ds.build()
         res = (0, ACTIONS[action][3](ds.rdd, sc))
     except Exception as e:  # pylint: disable=broad-except
-        args = e.args if all(isinstance(x, int) and not isinstance(x, bool) for x in e.args) else (repr(e.args),)
-        res = (1, exc_code(e), tuple(args))
+        res = (1,) + describe_exc(e)
     return res, ds
 
 
@@ -644,8 +704,8 @@ def gen_data(rng, n=None):
     return [rng.randint(-9, 9) for _ in range(n)]
 
 
-def gen_fault(rng):
-    return (rng.randrange(3), rng.randrange(3))
+def gen_fault(rng, codes=None):
+    return (rng.choice(codes or EXC_CODES), rng.randrange(3))
 
 
 def gen_ops(rng, above, lazy=False):
@@ -790,7 +850,7 @@ def generate(rng, tier):
     # 2. every position x exception class x style on the exhausting attempt, one partition
     for maxr in (1, 2, 3):
         for pos in range(3):
-            for exc in range(3):
+            for exc in (EXC_CODES if not quick else rng.sample(EXC_CODES, 3)):
                 for style in range(2):
                     for mode in (0, 1):
                         plan = [gen_fault(rng) for _ in range(maxr - 1)] + [(exc, pos)]
@@ -829,7 +889,7 @@ def generate(rng, tier):
                 for mode in (0, 2):
                     for maxr in (2, 3):
                         below, above = gen_ops(rng, True)[:1], gen_ops(rng, True)[:1]
-                        parts = [(gen_data(rng, 3), [], []), (gen_data(rng, 4), [(rng.randrange(3), pos)], []),
+                        parts = [(gen_data(rng, 3), [], []), (gen_data(rng, 4), [(rng.choice(EXC_CODES), pos)], []),
                                  (gen_data(rng, 2), [gen_fault(rng) for _ in range(rng.choice([0, maxr]))], [])]
                         job = fix_job(rng, maxr, mode, (rng.choice(STRICT), style, gen_ops(rng, False), below + [op] + above, parts, 0))
                         cases.append(with_followups(rng, maxr, mode, job))
@@ -846,7 +906,30 @@ def generate(rng, tier):
                         parts.append((gen_data(rng), plan, nest))
                     job = fix_job(rng, maxr, mode, (action, style, gen_ops(rng, False, True), gen_ops(rng, True, True), parts, 0))
                     cases.append(with_followups(rng, maxr, mode, job))
-    # 7. random job sequences
+    # 7. exception class x job-triggering method x position: a transient fault of that class (every attempt but
+    #    the last one fails: fault-free result, max_retries attempts) and, in a second job, a permanent one (the
+    #    caller receives that very class after exactly max_retries attempts); quick: one position and one
+    #    executor per pair, thorough: every position on every executor
+    for exc in EXC_CODES:
+        for action in range(N_ACT):
+            for pos in (range(3) if not quick else [rng.randrange(3)]):
+                for mode in ((0, 1, 2) if not quick else [rng.choice([0, 0, 1, 2])]):
+                    maxr = rng.choice([2, 2, 3])
+                    lazy = ACTIONS[action][1] == 2
+                    style = rng.randrange(2)
+                    same = [(exc, pos)] * (maxr + 1)
+                    tparts = [(gen_data(rng, rng.randint(1, 3)), [], []), (gen_data(rng, rng.randint(2, 4)), same[:maxr - 1], [])]
+                    pparts = [(gen_data(rng, rng.randint(1, 3)), [], []), (gen_data(rng, rng.randint(2, 4)), same, [])]
+                    if rng.random() < 0.5:
+                        tparts.reverse()
+                        pparts.reverse()
+                    jobs = [fix_job(rng, maxr, mode, (action, style, [], gen_ops(rng, True, lazy)[:1], tparts, 0)),
+                            fix_job(rng, maxr, mode, (action, style, [], gen_ops(rng, True, lazy)[:1], pparts, 0)),
+                            simple_job(rng)]
+                    case = (maxr, mode, jobs)
+                    if valid(case):
+                        cases.append(case)
+    # 8. random job sequences
     for _ in range(500 if quick else 12000):
         maxr = rng.choice([1, 2, 3, 4, 1, 2, 3, 4, 1, 2, 3, 4, 5, 6])
         mode = rng.choice([0, 0, 1, 2])
@@ -957,6 +1040,9 @@ def extra_checks(rng, tier, workdir):
                 fixed = []
                 for data, plan, nest in parts:
                     nest = [(rng.choice(PROC_NEST), c) for _k, c in nest]
+                    # (an exception loses its __cause__ when it is pickled back from a worker process: the
+                    # PEP 479 pair RuntimeError <- StopIteration cannot be recognised there)
+                    plan = [f if f is None or f[0] not in STOPITER_CODES else (6, f[1]) for f in plan]
                     if n_failing(maxr, (data, plan, nest)) >= maxr:
                         if seen:
                             plan, nest = [], [x for x in nest if x[1]]
@@ -973,8 +1059,7 @@ def extra_checks(rng, tier, workdir):
                     ds.build()
                     res = (0, ACTIONS[job[0]][3](ds.rdd, sc))
                 except Exception as e:  # pylint: disable=broad-except
-                    args = e.args if all(isinstance(x, int) for x in e.args) else (repr(e.args),)
-                    res = (1, exc_code(e), tuple(args))
+                    res = (1,) + describe_exc(e)
                 result.append((res, ds.read_logs()))
             PROC_STATS['process_pool_cases'] += 1
             PROC_STATS['process_pool_failing_jobs'] += sum(1 for r, _l in result if r[0] == 1)
@@ -982,10 +1067,143 @@ def extra_checks(rng, tier, workdir):
             o = oracle(case, result)
             if o is not None:
                 yield ('process-pool:' + o[0], o[1], repr(result)[:600], case)
+    yield from user_function_checks(rng, tier)
+
+
+# ------------------------------------------------------------------ faults raised by the user's own function (oracle only)
+
+class Mark(int):
+    """The element on which the user function fails (arithmetic on it gives plain ints)."""
+
+
+MARK = Mark(1000)
+
+
+class Flaky:
+    """hit(x) raises EXC[exc](n) on the n-th evaluation of the marked element, for n <= failures."""
+
+    def __init__(self, exc, failures):
+        self.exc, self.failures, self.calls, self.lock = exc, failures, 0, threading.Lock()
+
+    def hit(self, x):
+        if isinstance(x, Mark):
+            with self.lock:
+                self.calls += 1
+                n = self.calls
+            if n <= self.failures:
+                raise EXC[self.exc](n)
+        return x
+
+
+def _foreach_partition(fl):
+    def f(it):
+        for x in it:
+            fl.hit(x)
+    return f
+
+
+def _approx(a, b):
+    return abs(a - b) <= 1e-9 * max(1.0, abs(a), abs(b))
+
+
+# (name, run(rdd, flaky), expected(flat list), compare): the user function is the action's own per-partition
+# function, or the function of a map / filter / flatMap / mapValues stage under an action
+FN_ACTIONS = [
+    ('reduce(f)', lambda r, fl: r.reduce(lambda a, b: a + fl.hit(b)), sum, None),
+    ('treeReduce(f)', lambda r, fl: r.treeReduce(lambda a, b: a + fl.hit(b)), sum, None),
+    ('fold(f)', lambda r, fl: r.fold(0, lambda a, b: a + fl.hit(b)), sum, None),
+    ('aggregate(seqOp)', lambda r, fl: r.aggregate(0, lambda a, x: a + fl.hit(x), ADD), sum, None),
+    ('treeAggregate(seqOp)', lambda r, fl: r.treeAggregate(0, lambda a, x: a + fl.hit(x), ADD), sum, None),
+    ('foreach(f)', lambda r, fl: r.foreach(fl.hit), lambda xs: None, None),
+    ('foreachPartition(f)', lambda r, fl: r.foreachPartition(_foreach_partition(fl)), lambda xs: None, None),
+    ('aggregateByKey(seqOp)', lambda r, fl: sorted(r.keyBy(K3).aggregateByKey(0, lambda a, v: a + fl.hit(v), ADD).collect()),
+     lambda xs: _mod3(xs, sum), None),
+    ('map(f).collect', lambda r, fl: r.map(fl.hit).collect(), list, None),
+    ('map(f).sum', lambda r, fl: r.map(fl.hit).sum(), sum, None),
+    ('map(f).count', lambda r, fl: r.map(fl.hit).count(), len, None),
+    ('map(f).reduce', lambda r, fl: r.map(fl.hit).reduce(ADD), sum, None),
+    ('map(f).fold', lambda r, fl: r.map(fl.hit).fold(0, ADD), sum, None),
+    ('map(f).max', lambda r, fl: r.map(fl.hit).max(), max, None),
+    ('map(f).min', lambda r, fl: r.map(fl.hit).min(), min, None),
+    ('map(f).mean', lambda r, fl: r.map(fl.hit).mean(), lambda xs: sum(xs) / len(xs), _approx),
+    ('map(f).stats', lambda r, fl: r.map(fl.hit).stats().count(), len, None),
+    ('map(f).variance', lambda r, fl: r.map(fl.hit).variance(),
+     lambda xs: sum((x - sum(xs) / len(xs)) ** 2 for x in xs) / len(xs), _approx),
+    ('map(f).top', lambda r, fl: r.map(fl.hit).top(2), lambda xs: sorted(xs, reverse=True)[:2], None),
+    ('map(f).takeOrdered', lambda r, fl: r.map(fl.hit).takeOrdered(2), lambda xs: sorted(xs)[:2], None),
+    ('map(f).countByValue', lambda r, fl: sorted(r.map(fl.hit).countByValue().items()),
+     lambda xs: [(v, xs.count(v)) for v in sorted(set(xs))], None),
+    ('map(f).countByKey', lambda r, fl: sorted(r.map(fl.hit).keyBy(K3).countByKey().items()), lambda xs: _mod3(xs, len), None),
+    ('map(f).collectAsMap', lambda r, fl: sorted(r.map(fl.hit).keyBy(lambda x: x).collectAsMap()), lambda xs: sorted(set(xs)), None),
+    ('map(f).lookup', lambda r, fl: r.map(fl.hit).keyBy(K3).lookup(1), lambda xs: [x for x in xs if x % 3 == 1], None),
+    ('map(f).distinct', lambda r, fl: sorted(r.map(fl.hit).distinct().collect()), lambda xs: sorted(set(xs)), None),
+    ('map(f).sortBy', lambda r, fl: r.map(fl.hit).sortBy(lambda x: x).collect(), sorted, None),
+    ('map(f).groupByKey', lambda r, fl: sorted((k, list(v)) for k, v in r.map(fl.hit).keyBy(K3).groupByKey().collect()),
+     lambda xs: _mod3(xs, list), None),
+    ('map(f).zipWithIndex', lambda r, fl: r.map(fl.hit).zipWithIndex().collect(), lambda xs: [(x, i) for i, x in enumerate(xs)], None),
+    ('map(f).toLocalIterator', lambda r, fl: list(r.map(fl.hit).toLocalIterator()), list, None),
+    ('map(f).histogram', lambda r, fl: r.map(fl.hit).histogram([-5000, 0, 5000])[1][:2],
+     lambda xs: [sum(1 for x in xs if x < 0), sum(1 for x in xs if x >= 0)], None),
+    ('filter(f).count', lambda r, fl: r.filter(lambda x: fl.hit(x) is not None).count(), len, None),
+    ('flatMap(f).sum', lambda r, fl: r.flatMap(lambda x: [fl.hit(x)]).sum(), sum, None),
+    ('mapValues(f).values.sum', lambda r, fl: r.keyBy(K3).mapValues(fl.hit).values().sum(), sum, None),
+    ('mapPartitions(f).collect', lambda r, fl: r.mapPartitions(lambda it: [fl.hit(x) for x in it]).collect(), list, None),
+]
+FN_STATS = {'user_function_fault_runs': 0}
+
+
+def user_function_checks(rng, tier):
+    """exception class x method whose per-partition user function raises it on the marked element: transient
+    (max_retries - 1 failures: the fault-free result after exactly max_retries evaluations) and permanent (that
+    very exception, of the max_retries-th evaluation, after exactly max_retries evaluations)."""
+    pool = ThreadPoolExecutor(4)
+    try:
+        for exc in EXC_CODES:
+            for name, run, expected, cmp in FN_ACTIONS:
+                for permanent in (False, True):
+                    for mode in ((0, 1) if tier != 'quick' else (rng.randrange(2),)):
+                        maxr = rng.choice([2, 3])
+                        parts = [gen_data(rng, rng.randint(1, 3)), [rng.randint(-9, 9), MARK] + gen_data(rng, rng.randint(0, 2))]
+                        if rng.random() < 0.5:
+                            parts.reverse()
+                        flat = [int(x) for p in parts for x in p]
+                        fl = Flaky(exc, 10 ** 6 if permanent else maxr - 1)
+                        sc = pysparkling.Context(pool=pool, max_retries=maxr) if mode else pysparkling.Context(max_retries=maxr)
+                        try:
+                            got = (0, run(sc._parallelize_partitions(parts), fl))  # pylint: disable=protected-access
+                        except Exception as e:  # pylint: disable=broad-except
+                            got = (1,) + describe_exc(e)
+                        FN_STATS['user_function_fault_runs'] += 1
+                        case = {'exception': EXC[exc].__name__, 'method': name, 'permanent': permanent, 'max_retries': maxr,
+                                'executor': ['local', 'thread pool'][mode], 'partitions': [[int(x) for x in p] for p in parts],
+                                'marked element': int(MARK)}
+                        if permanent:
+                            want = (1, exc, (maxr,))
+                            ok = got == want
+                        else:
+                            want = (0, expected(flat))
+                            ok = got[0] == 0 and (cmp(got[1], want[1]) if cmp else got[1] == want[1])
+                        if not ok:
+                            yield (f'user-function:{"exception" if permanent else "result"}:{name}',
+                                   f'{name}: the user function raises {EXC[exc].__name__} on the marked element '
+                                   f'{"on every evaluation" if permanent else f"on its first {maxr - 1} evaluation(s)"}, '
+                                   f'max_retries={maxr}', f'expected {want!r}, got {got!r}', case)
+                        elif fl.calls != maxr:
+                            yield (f'user-function:attempts:{name}',
+                                   f'{name} with {EXC[exc].__name__}: the marked element was evaluated {fl.calls} times',
+                                   f'expected {maxr} (max_retries)', case)
+                        # the context stays usable
+                        try:
+                            if sc.parallelize([1, 2, 3], 2).sum() != 6:
+                                raise ValueError('wrong sum')
+                        except Exception as e:  # pylint: disable=broad-except
+                            yield ('user-function:follow-up', f'job after {name} / {EXC[exc].__name__}', repr(e), case)
+    finally:
+        pool.shutdown(wait=True)
 
 
 def extra_evidence():
-    return dict(PROC_STATS, actions=len(ACTIONS), nested_operation_kinds=len(NEST_OPS), lineage_ops=len(OPS))
+    return dict(PROC_STATS, **FN_STATS, exception_classes=len(EXC), actions=len(ACTIONS), nested_operation_kinds=len(NEST_OPS), lineage_ops=len(OPS))
 
 
 # ------------------------------------------------------------------ shrinking
